@@ -10,6 +10,7 @@ import (
 	"github.com/specterops/dawgs/cypher/models/pgsql/optimize"
 	"github.com/specterops/dawgs/cypher/models/pgsql/translate"
 
+	"verif/qcase"
 	"verif/xlate"
 )
 
@@ -52,6 +53,7 @@ func TestC03Show(t *testing.T) {
 			}
 			t.Logf("RULES applied: %v  LOWERINGS: %v", rules, lows)
 		}
+		t.Logf("LISTED-AS: %q", qcase.C03ExcludedBy(model, func(string) bool { return true }))
 		v := judgeSQL(tr.SQL, tr.Params, isUpdating(model))
 		t.Logf("%s\n  SQL: %s\n  PARAMS: %v\n  VERDICT: err=%q skip=%q nt=%v %v", q, tr.SQL, tr.Params, v.err, v.skip, v.nonTrivial, v.classes)
 	}
